@@ -69,6 +69,9 @@ func genC01(w *World, res *CheckResult) {
 	res.Obls = append(res.Obls, selectObls(g.obls, `/post\[(value|below|stack|ip)\]$`, `inv-(init|pres)\[(stack-mem|filled|stack|pops|count|i)\]`, `^vm\.VM\.Run/pre-sat$`, `/cover$`)...)
 	res.Assumptions = append(res.Assumptions, g.notes...)
 	res.Functions = append(res.Functions, g.funcs...)
+	// run-time helpers: library preconditions (a violated one is a failure the definition does not name)
+	res.Obls = append(res.Obls, selectObls(genPureAll(w), `^vm\.slice/(lib-pre:|pre-sat)`)...)
+	res.Functions = append(res.Functions, "vm.slice")
 	for n := range w.Funcs {
 		if strings.HasPrefix(n, "compiler.compiler.") && strings.HasSuffix(n, "Node") {
 			res.Functions = append(res.Functions, n)
